@@ -591,6 +591,24 @@ func drawExchange(t *rapid.T) exchangeBatch {
 				paths[fmt.Sprintf("/zbare%d", k)] = map[string]any{method: op}
 			}
 		}
+		if rapid.IntRange(0, 2).Draw(t, "samename") == 0 {
+			// parameters of ONE operation whose names give the same Go identifier: spread over locations
+			// and, for two of them, within one location (spelled differently)
+			sp := func(name, in string) map[string]any {
+				return map[string]any{"name": name, "in": in, "schema": map[string]any{"type": "string"}}
+			}
+			sets := [][]any{
+				{sp("page-size", "query"), sp("page_size", "query"), sp("page_size", "cookie")},
+				{sp("page-size", "query"), sp("page_size", "cookie"), sp("Page-Size", "header")},
+				{sp("page_size", "cookie"), sp("page-size", "cookie"), sp("page_size", "query"), sp("Page-Size", "header")},
+				{sp("pageSize", "query"), sp("page_size", "header")},
+			}
+			k := rapid.IntRange(0, len(sets)-1).Draw(t, "samenameset")
+			for _, ps := range sets[k : k+1] {
+				paths[fmt.Sprintf("/zsame%d", k)] = map[string]any{"get": map[string]any{"operationId": fmt.Sprintf("zsame%d", k), "parameters": ps,
+					"responses": map[string]any{"200": map[string]any{"description": "r"}}}}
+			}
+		}
 		if len(keys) > 0 && rapid.Bool().Draw(t, "skipone") {
 			// the operation that comes first in the document cannot be generated
 			which := keys[0]
